@@ -453,6 +453,12 @@ def r4b_listing_examined_completely(ctx):
 
 def r5_errors_propagate(ctx):
     shared.local_listing_errors_propagate(ctx, 'C08.R5')
+    # ... and the listing reaches every object exists() / download() reach (linked shard directories included): what the
+    # listing omits, clean takes for unreferenced or never considers
+    from ..report import Relabel as _RL8
+    from .c13 import r3b_local_prefix_scan
+
+    r3b_local_prefix_scan(_RL8(ctx, 'C08.R5'))
     shared.deletion_confined_to_gc_commands(ctx, 'C08.R1')
     shared.adapter_delete_discipline(ctx, 'C08.R1')
     # "exactly those referenced by the remaining snapshots" presupposes listings that report every object once and to the end
